@@ -125,6 +125,15 @@ TMaps ==
     /\ Range(Ev.own) \cap Range(Ev.others) = {}
     /\ l' = l + 1 /\ UNCHANGED <<vars, pend>>
 
+\* C04: memory allocated while the server dealt with one hostile message stays
+\* within a constant factor of the limit, whatever the message declares
+\* (bytes: growth of the process's total allocation; sent: bytes really sent)
+MaxOf2(a, b) == IF a >= b THEN a ELSE b
+TAlloc ==
+    /\ More /\ Ev.k = "x-alloc"
+    /\ Ev.bytes <= 4 * MaxOf2(Ev.limit, 4096) + 2 * Ev.sent + 4194304
+    /\ l' = l + 1 /\ UNCHANGED <<vars, pend>>
+
 \* a silent server step
 TServer ==
     /\ pend = <<>>
@@ -173,7 +182,7 @@ TFaultedClose ==
     /\ l' = l + 1
     /\ UNCHANGED <<cfg, ssl, mwi, cparams, inq, eof, faulted, stmts, portals, skip, hq, h, pend>>
 
-TNext == TReset \/ TMaps \/ TTls \/ TTlsFail \/ TWire \/ TIntact \/ TSegRun \/ TPreamble \/ TGlobal \/ TParseParams \/ TApi \/ TSend \/ TEof \/ TLate \/ TServer \/ TMatch \/ TIdle
+TNext == TReset \/ TAlloc \/ TMaps \/ TTls \/ TTlsFail \/ TWire \/ TIntact \/ TSegRun \/ TPreamble \/ TGlobal \/ TParseParams \/ TApi \/ TSend \/ TEof \/ TLate \/ TServer \/ TMatch \/ TIdle
          \/ TFault \/ TFaultedCb \/ TFaultedClose
 
 TSpec == TInit /\ [][TNext]_tvars
